@@ -6,6 +6,8 @@ def explore(run, lean):
     quick = run.tier == "quick"
     factory_corr.explore(run, 150 if quick else 3000)
     run.extra["rule"] = ("random charts (<=8 states) built three ways (hand-written handlers, state_method_template + register_signal_callback/register_parent in shuffled registration order, exec of the to_code text), callbacks that transition / handle / decline, 30% with callbacks named `handled`; callback invocation logs and final states compared; every to_code text parsed and compared with the Lean ladder")
+    ROUND6_RULE = '; bound-method callbacks with tolerant signatures (*more, option=None); template functions shared with a differently nested chart'
+    run.extra["rule"] += ROUND6_RULE
 
 
 def replay(case):
